@@ -43,10 +43,15 @@ def gen_part(rng, kind, name, for_def):
     attrs = {"name": name}
     if kind == "BLOB":
         r = rng.random()
-        data = b"" if r < 0.3 else bytes(rng.randrange(256) for _ in range(rng.choice([1, 3, 10, 40])))
+        data = b"" if r < 0.3 else bytes(rng.randrange(256) for _ in range(rng.choice([1, 3, 10, 40, 90])))
         attrs["size"] = str(len(data))
         attrs["format"] = rng.choice(["", ".bin", ".fits"])
         text = base64.b64encode(data).decode("ascii") if data else (None if rng.random() < 0.5 else "")
+        if text and len(text) >= 8 and rng.random() < 0.4:
+            # servers (libindi) wrap the base64 text into lines; white space inside the payload is not part of it
+            width = rng.choice([4, 8, 72 if len(text) > 72 else 12])
+            sep = rng.choice(["\n", "\n", " ", "\n  "])
+            text = sep.join(text[i:i + width] for i in range(0, len(text), width))
     else:
         text = gen_value(rng, kind, False)
         if kind in ("Switch", "Light", "Number") and text is None:
